@@ -112,6 +112,186 @@ theorem iter_nil_iff (s : SV) : iter s = [] ↔ s = 0#64 := by
     rw [h j] at this
     cases this
 
+/-- `tzAux s fuel i` finds the least set bit at or above `i` within `fuel` steps. -/
+theorem tzAux_spec (s : SV) : ∀ (fuel i : Nat), (∃ j, i ≤ j ∧ j < i + fuel ∧ s.getLsbD j = true) →
+    s.getLsbD (tzAux s fuel i) = true ∧ i ≤ tzAux s fuel i ∧ ∀ k, i ≤ k → k < tzAux s fuel i → s.getLsbD k = false := by
+  intro fuel
+  induction fuel with
+  | zero => intro i ⟨j, h1, h2, _⟩; omega
+  | succ n ih =>
+    intro i ⟨j, h1, h2, h3⟩
+    simp only [tzAux]
+    by_cases hb : s.getLsbD i = true
+    · rw [if_pos hb]
+      exact ⟨hb, Nat.le_refl _, fun k h4 h5 => by omega⟩
+    · rw [if_neg hb]
+      have hji : j ≠ i := by intro e; subst e; exact hb h3
+      obtain ⟨a, b, c⟩ := ih (i + 1) ⟨j, by omega, by omega, h3⟩
+      refine ⟨a, by omega, ?_⟩
+      intro k h4 h5
+      by_cases hk : k = i
+      · subst hk; simpa using hb
+      · exact c k (by omega) h5
+
+theorem tz_spec (s : SV) (hs : s ≠ 0#64) :
+    s.getLsbD (tz s) = true ∧ ∀ k, k < tz s → s.getLsbD k = false := by
+  have : ∃ j, s.getLsbD j = true := by
+    apply Classical.byContradiction
+    intro hne
+    apply hs
+    apply BitVec.eq_of_getLsbD_eq
+    intro j _
+    have : ¬ s.getLsbD j = true := fun h => hne ⟨j, h⟩
+    simpa using this
+  obtain ⟨j, hj⟩ := this
+  have hj64 : j < 64 := BitVec.lt_of_getLsbD hj
+  obtain ⟨a, _, c⟩ := tzAux_spec s 64 0 ⟨j, by omega, by omega, hj⟩
+  exact ⟨a, fun k hk => c k (by omega) hk⟩
+
+/-- Two strictly ascending lists with the same members are equal. -/
+theorem eq_of_sorted_of_mem_iff : ∀ (l1 l2 : List Nat), l1.Pairwise (· < ·) → l2.Pairwise (· < ·) →
+    (∀ x, x ∈ l1 ↔ x ∈ l2) → l1 = l2 := by
+  intro l1
+  induction l1 with
+  | nil =>
+    intro l2 _ _ h
+    cases l2 with
+    | nil => rfl
+    | cons b r => exact absurd ((h b).mpr List.mem_cons_self) (by simp)
+  | cons a r ih =>
+    intro l2 h1 h2 h
+    cases l2 with
+    | nil => exact absurd ((h a).mp List.mem_cons_self) (by simp)
+    | cons b r2 =>
+      have p1 := List.pairwise_cons.mp h1
+      have p2 := List.pairwise_cons.mp h2
+      have hab : a = b := by
+        have ha := (h a).mp List.mem_cons_self
+        have hb := (h b).mpr List.mem_cons_self
+        rcases List.mem_cons.mp ha with e | e
+        · exact e
+        · rcases List.mem_cons.mp hb with e2 | e2
+          · exact e2.symm
+          · have := p2.1 a e; have := p1.1 b e2; omega
+      subst hab
+      congr 1
+      apply ih r2 p1.2 p2.2
+      intro x
+      constructor
+      · intro hx
+        have := (h x).mp (List.mem_cons_of_mem _ hx)
+        rcases List.mem_cons.mp this with e | e
+        · subst e; have := p1.1 x hx; omega
+        · exact e
+      · intro hx
+        have := (h x).mpr (List.mem_cons_of_mem _ hx)
+        rcases List.mem_cons.mp this with e | e
+        · subst e; have := p2.1 x hx; omega
+        · exact e
+
+
+theorem shr_getLsbD (s : SV) (k i : Nat) : (s >>> k).getLsbD i = s.getLsbD (k + i) := by
+  simp [BitVec.getLsbD_ushiftRight]
+
+theorem iterLoop_spec (s : SV) : ∀ (fuel : Nat) (n : SV) (offset idx : Nat),
+    offset ≤ idx → n = s >>> (idx - offset) → n ≠ 0#64 → offset = tz n → 64 - idx ≤ fuel →
+    (iterLoop fuel n offset idx).Pairwise (· < ·) ∧
+    ∀ j, j ∈ iterLoop fuel n offset idx ↔ (idx ≤ j ∧ s.getLsbD j = true) := by
+  intro fuel
+  induction fuel with
+  | zero =>
+    intro n offset idx hoff hn hne hoffs hfuel
+    -- idx < 64 because bit idx of s is set
+    have ht := tz_spec n hne
+    rw [← hoffs, hn, shr_getLsbD] at ht
+    have : idx - offset + offset = idx := by omega
+    rw [this] at ht
+    have := BitVec.lt_of_getLsbD ht.1
+    omega
+  | succ f ih =>
+    intro n offset idx hoff hn hne hoffs hfuel
+    have ht := tz_spec n hne
+    rw [← hoffs] at ht
+    have hbit : s.getLsbD idx = true := by
+      have := ht.1
+      rw [hn, shr_getLsbD] at this
+      have e : idx - offset + offset = idx := by omega
+      rw [e] at this; exact this
+    have hidx : idx < 64 := BitVec.lt_of_getLsbD hbit
+    have hn' : n >>> (offset + 1) = s >>> (idx + 1) := by
+      rw [hn, ← BitVec.shiftRight_add]
+      congr 1; omega
+    simp only [iterLoop, hidx, if_true]
+    split
+    · -- nothing above idx
+      rename_i hz
+      have hz : s >>> (idx + 1) = 0#64 := by rw [← hn']; simpa using hz
+      refine ⟨by simp, ?_⟩
+      intro j
+      simp only [List.mem_singleton]
+      constructor
+      · intro e; subst e; exact ⟨Nat.le_refl _, hbit⟩
+      · intro ⟨h1, h2⟩
+        apply Classical.byContradiction
+        intro hne2
+        have hgt : idx + 1 ≤ j := by omega
+        have := shr_getLsbD s (idx + 1) (j - (idx + 1))
+        rw [hz] at this
+        have e : idx + 1 + (j - (idx + 1)) = j := by omega
+        rw [e, h2] at this
+        simp at this
+    · rename_i hnz
+      have hnz' : n >>> (offset + 1) ≠ 0#64 := by simpa using hnz
+      have ht' := tz_spec _ hnz'
+      obtain ⟨hs, hm⟩ := ih (n >>> (offset + 1)) (tz (n >>> (offset + 1))) (idx + tz (n >>> (offset + 1)) + 1)
+        (by omega) (by rw [hn']; congr 1; omega) hnz' rfl (by omega)
+      refine ⟨List.pairwise_cons.mpr ⟨?_, hs⟩, ?_⟩
+      · intro j hj
+        have := (hm j).mp hj
+        omega
+      · intro j
+        rw [List.mem_cons, hm j]
+        constructor
+        · rintro (e | ⟨h1, h2⟩)
+          · subst e; exact ⟨Nat.le_refl _, hbit⟩
+          · exact ⟨by omega, h2⟩
+        · intro ⟨h1, h2⟩
+          by_cases e : j = idx
+          · exact .inl e
+          · refine .inr ⟨?_, h2⟩
+            apply Classical.byContradiction
+            intro hlt
+            have hk : j - (idx + 1) < tz (n >>> (offset + 1)) := by omega
+            have := ht'.2 _ hk
+            rw [hn', shr_getLsbD] at this
+            have e2 : idx + 1 + (j - (idx + 1)) = j := by omega
+            rw [e2, h2] at this
+            cases this
+
+/-- `Iter` as written in version.go (trailing-zeros walk with shifts) yields exactly the set bits
+in ascending order. -/
+theorem iterGo_eq_iter (s : SV) : iterGo s = iter s := by
+  unfold iterGo
+  split
+  · rename_i hz
+    have : s = 0#64 := by simpa using hz
+    rw [(iter_nil_iff s).mpr this]
+  · rename_i hnz
+    have hne : s ≠ 0#64 := by simpa using hnz
+    obtain ⟨hs, hm⟩ := iterLoop_spec s 64 s (tz s) (tz s) (Nat.le_refl _) (by simp) hne rfl (by omega)
+    apply eq_of_sorted_of_mem_iff _ _ hs (iter_sorted s)
+    intro j
+    rw [hm j, mem_iter, has_eq]
+    constructor
+    · intro h; exact h.2
+    · intro h
+      refine ⟨?_, h⟩
+      apply Classical.byContradiction
+      intro hlt
+      have := (tz_spec s hne).2 j (by omega)
+      rw [h] at this; cases this
+
+
 end SV
 
 /-! ### the registry's target -/
